@@ -102,7 +102,8 @@ ExecEv ==
             [] o.res = "hit" -> q.k = "std" /\ ExecHit(i, q, o)
             [] o.res = "miss" -> q.k = "std" /\ ExecMiss(i, q, Ev.r, Ev.sid)
             [] OTHER -> FALSE
-    /\ UNCHANGED <<lazy, now, serial, handles, dump, dumpOf, mirror, nops, hist, loose>>
+    /\ mirror' = IF cache' # cache THEN <<>> ELSE mirror
+    /\ UNCHANGED <<lazy, now, serial, handles, dump, dumpOf, nops, hist, loose>>
 
 RefreshStart ==
     /\ IsEvent("RefreshStart")
@@ -119,7 +120,8 @@ RefreshEndEv ==
           /\ \/ cache' = Store(f.i, f.key, Ev.q, Ev.r, Ev.sid)
              \/ f.i \in loose /\ cache' = cache
     /\ obs' = Ack("refreshed")
-    /\ UNCHANGED <<lazy, now, serial, handles, dump, dumpOf, mirror, lastq, nops, hist, loose>>
+    /\ mirror' = IF cache' # cache THEN <<>> ELSE mirror
+    /\ UNCHANGED <<lazy, now, serial, handles, dump, dumpOf, lastq, nops, hist, loose>>
 
 \* Alias = "none": nothing the environment does to a handed-out message changes the state
 MutateEv ==
@@ -159,8 +161,10 @@ DumpEv ==
        /\ \A x, y \in xs : x.id = y.id => x = y
        /\ LET nc == {Refined(e, CHOOSE x \in xs : x.id = e.id) : e \in {e \in live : \E x \in xs : x.id = e.id}} IN
           /\ cache' = [cache EXCEPT ![i] = nc]
-          /\ dump' = nc
-    /\ dumpOf' = Ev.i /\ obs' = Ack("dumped")
+          \* set = FALSE: a read-back for inspection only; later loads still use the previous dump
+          /\ dump' = IF Ev.set THEN nc ELSE dump
+    /\ dumpOf' = IF Ev.set THEN Ev.i ELSE dumpOf
+    /\ obs' = Ack("dumped")
     /\ UNCHANGED <<lazy, now, serial, inflight, handles, mirror, lastq, nops, hist, loose>>
 
 LoadEv ==
@@ -177,7 +181,10 @@ LoadCutEv ==
     /\ IsEvent("LoadCut")
     /\ Ev.status = 400
     /\ dumpOf \in Insts
-    /\ cache' = [cache EXCEPT ![Ev.j] = Overlay(@, LiveOf(dump))]
+    \* entries of the dump whose key is already present may or may not have replaced the present entry;
+    \* all others are represented as "possibly there" (the instance becomes loose)
+    /\ \E K \in SUBSET {e \in LiveOf(dump) : \E x \in cache[Ev.j] : x.key = e.key} :
+          cache' = [cache EXCEPT ![Ev.j] = Overlay(@, LiveOf(dump) \ K)]
     /\ loose' = loose \cup {Ev.j}
     /\ mirror' = <<>> /\ obs' = Ack("error")
     /\ UNCHANGED <<lazy, now, serial, inflight, handles, dump, dumpOf, lastq, nops, hist>>
